@@ -40,6 +40,10 @@ EXPLANATION = (
     "detector outputs on transformed data (a consequence for margins above rounding), argsort ties, the multivariate Gaussian cost "
     "(invariance of logdet(cov) is a paper lemma over library atoms)."
 )
+# obligations added during the build phase (seeding rounds, twins, mutation analysis)
+ADDED_IN_BUILD = " Also: LOG-SPACE - on no path of GaussianCovCost's fit + evaluate is the determinant of a data-derived matrix materialised (np.linalg.det scales as a^(2p) and leaves the float64 range for wide data; slogdet / Cholesky / eigenvalue sums stay in log space); ADDITIVE-COST - segment costs enter PELT's recurrence additively (C02.a first block and C02.b candidates re-run), which is what lets the scale term N p log a^2 cancel."
+EXPLANATION = EXPLANATION + ADDED_IN_BUILD
+
 ASSUMPTIONS = [
     "Python's ast module and evaluation-order/argument-binding semantics as implemented in skverif/symex.py",
     "library model table skverif/models.py",
